@@ -1,4 +1,5 @@
 """C08 SMARTS primitives and query atoms match exactly what is documented.
+(also: the query API construction paths, the whole of smarts() incl. stereo marks - see corr_api, corr_full, search_stereo)
 Theorems (coq/props/C08.v) about the Gallina model of the comparison methods, calc_labels, _query_parse, the atom
 construction of smarts() and the bond tokens of _tokenize; correspondence of each of these with the real code
 (exhaustive small spaces, generated, corpus, malformed); search with oracles independent of the model (a Python
